@@ -776,6 +776,34 @@ pub fn run(ctx: &Ctx) {
     let list_input = Value::Map(
         [("items".to_string(), Value::Vec((0..4).map(|i| Value::String(format!("leaf#{i}"))).collect()))].into_iter().collect(),
     );
+    // a step applied directly to a list / map literal: every item of the literal is evaluated (an unknown field, symbol
+    // or function in an item that is not selected is still reported), and the step then addresses exactly one item
+    let lits = literal_step_cases();
+    ctx.enumerate(
+        "steps-into-literal-collections",
+        lits.len() as u64,
+        true,
+        |i, acc| {
+            let case = &lits[i as usize];
+            let o = super::evalcommon::observe(case);
+            acc.cell(if o.model.is_err() { "literal-step:an-item-fails" } else { "literal-step:all-items-fine" }, true);
+            if i % 37 == 0 {
+                acc.sample("literal-step", || case.render());
+            }
+            super::c02::judge(case, &o.actual, &o.model).map_err(|i| Issue::new(i.sig.replace("table:", "path:literal-step:"), i.msg))?;
+            if o.log != o.model_log {
+                return Err(Issue::new("path:literal-step:calls", format!("invocations {:?}, reference {:?}; case {}", o.log, o.model_log, case.render())));
+            }
+            Ok(())
+        },
+        |i| {
+            let mut j = lits[i as usize].to_json();
+            j["literal_step"] = serde_json::json!(true);
+            j
+        },
+        "literal-step",
+    );
+
     ctx.enumerate(
         "oversized-index-literals",
         big.len() as u64,
@@ -841,7 +869,58 @@ pub fn run(ctx: &Ctx) {
     );
 }
 
+fn literal_step_cases() -> Vec<super::evalcommon::EvalCase> {
+    let mut fns = BTreeMap::new();
+    fns.insert("fa".to_string(), me::FnSpec { cacheable: true, fail_on: vec![], fail_first: 0, uncacheable_after: 0 });
+    let mut symbols = BTreeMap::new();
+    symbols.insert("known".to_string(), Value::Int(3));
+    let facts = Value::Map([("x".to_string(), Value::Int(1)), ("A".to_string(), Value::Map([("b".to_string(), Value::Int(2))].into_iter().collect()))].into_iter().collect());
+    let items: Vec<Expr> = vec![
+        Expr::reff("x"),
+        Expr::reff("nope"),
+        Expr::reff("X"),
+        Expr::symbol("known"),
+        Expr::symbol("unknown"),
+        Expr::func("fa", Expr::reff("x")),
+        Expr::func("nofn", Expr::reff("x")),
+        Expr::index(Expr::reff("A"), Index::Map("b".into())),
+        Expr::index(Expr::reff("a"), Index::Map("b".into())),
+        Expr::div(Expr::value(1), Expr::value(0)),
+        Expr::add(Expr::value(1), Expr::value("s".to_string())),
+        Expr::value(Value::None),
+    ];
+    let mut out = vec![];
+    let mk = |e: Expr| super::evalcommon::EvalCase { expr: e, facts: facts.clone(), fns: fns.clone(), symbols: symbols.clone() };
+    for a in &items {
+        for b in &items {
+            let list = Expr::Vec(vec![a.clone(), b.clone()]);
+            let map = Expr::Map([("p".to_string(), a.clone()), ("q".to_string(), b.clone())].into_iter().collect());
+            for pos in [0usize, 1, 2] {
+                out.push(mk(Expr::index(list.clone(), Index::Vec(pos))));
+            }
+            for key in ["p", "q", "r", "P", "0"] {
+                out.push(mk(Expr::index(map.clone(), Index::Map(key.into()))));
+            }
+            out.push(mk(Expr::index(list.clone(), Index::Map("0".into()))));
+            out.push(mk(Expr::index(map.clone(), Index::Vec(0))));
+            out.push(mk(Expr::index(Expr::index(Expr::Vec(vec![list.clone()]), Index::Vec(0)), Index::Vec(1))));
+        }
+    }
+    out
+}
+
 pub fn replay(j: &serde_json::Value) -> Option<Verdict> {
+    if j.get("literal_step").is_some() {
+        let case = super::evalcommon::EvalCase::from_json(j)?;
+        let o = super::evalcommon::observe(&case);
+        return Some(super::c02::judge(&case, &o.actual, &o.model).map_err(|i| Issue::new(i.sig.replace("table:", "path:literal-step:"), i.msg)).and_then(|_| {
+            if o.log != o.model_log {
+                Err(Issue::new("path:literal-step:calls", format!("invocations {:?}, reference {:?}", o.log, o.model_log)))
+            } else {
+                Ok(())
+            }
+        }));
+    }
     if let Some(b) = j.get("bundle_bytes").and_then(|b| b.as_array()) {
         let bytes: Vec<u8> = b.iter().filter_map(|x| x.as_u64().map(|x| x as u8)).collect();
         return Some(check_bundle(&random_bundle(&bytes)));
